@@ -3,7 +3,7 @@ import hashlib, json, os, subprocess, sys, time, fcntl, contextlib
 
 VERIF = os.path.dirname(os.path.dirname(os.path.abspath(__file__)))
 REPO = os.environ.get("VERIF_REPO", "/repo")
-BUILD = os.path.join(VERIF, "build")
+BUILD = os.environ.get("VERIF_BUILD") or os.path.join(VERIF, "build")
 LEAN = os.path.join(VERIF, "lean")
 OBJ = os.path.join(BUILD, "obj")
 GENINC = os.path.join(BUILD, "geninc")
